@@ -16,7 +16,7 @@
 (* property being checked.  Several traces are concatenated; a "reset"     *)
 (* line starts a new one.                                                  *)
 (***************************************************************************)
-EXTENDS ExtWorld, Hub2, Json, IOUtils
+EXTENDS ExtWorld, Hub2, Minter, Json, IOUtils
 
 Trace == ndJsonDeserialize(IOEnv.VERIF_TRACE)
 NoCfg == <<>>   \* traces carry their configuration in every state (cfg # "static")
@@ -58,7 +58,9 @@ StateOf(j, cfg) ==
     [cfg |-> cfg, h |-> j.h, t |-> j.t, inb |-> j.inb, bal |-> j.bal, sup |-> j.sup, stk |-> j.stk, tot |-> j.tot,
      ch |-> [c \in DOMAIN j.ch |-> ChainOf(j.ch[c])], st |-> j.st, fr |-> j.fr,
      hold |-> j["or"].holdw, pr |-> j["or"].pr,
-     evm |-> IF "evm" \in DOMAIN j THEN j.evm ELSE <<>>]
+     evm |-> IF "evm" \in DOMAIN j THEN j.evm ELSE <<>>,
+     mnt |-> IF "mnt" \in DOMAIN j THEN j.mnt ELSE <<>>,
+     cn  |-> IF "cn" \in DOMAIN j THEN j.cn ELSE <<>>]
 
 Dead(j) == "dead" \in DOMAIN j
 
@@ -88,7 +90,7 @@ StateDiffs(e, o) ==
   \cup (IF <<e.h, e.t>> # <<o.h, o.t>> THEN {<<"conf:clock", "">>} ELSE {})
 
 \* kinds of actions the hub specification predicts
-Modelled(a) == a.k \in {"Begin", "End", "Send", "BulkSend", "Cancel", "ReqBatch", "Claim", "Confirm", "SetKeys"}
+Modelled(a) == a.k \in {"Begin", "End", "Send", "BulkSend", "Cancel", "ReqBatch", "Claim", "Confirm", "SetKeys", "Tx"}
 
 \* the pre-state handed to Step: for "End" the staking module's validator update has already happened
 PreFor(a, pre, post) == IF a.k = "End" THEN [pre EXCEPT !.stk = post.stk, !.tot = post.tot] ELSE pre
@@ -109,7 +111,7 @@ FailedIsNoop(pre, a, res, post) ==
     ELSE IF StateDiffs(pre, post) # {} THEN {<<"C11:FailedIsNoop", "">>} ELSE {}
 
 \* C01 needs the external world (custody): only behaviours of families that script it (Ext* lines) qualify
-WithWorld(fam) == fam \in {"econ", "bulk", "fees", "evm"}
+WithWorld(fam) == fam \in {"econ", "bulk", "fees", "evm", "minter"}
 ExtAct(a) == a.k \in {"ExtDeposit", "ExtExec", "ExtMine"}
 \* an ExtExec line must pay out exactly the batch the hub holds (otherwise the script is inconsistent)
 ExecConsistent(xw, pre, a) ==
@@ -119,11 +121,15 @@ ExecConsistent(xw, pre, a) ==
 \* address its validator had registered when it confirmed (gc: chain -> tx -> validator -> that address), and
 \* list as unsigned exactly the stored txs the asking validator has not confirmed
 GcInit(s) == [c \in DOMAIN s.ch |-> <<>>]
-GcNext(gc, pre, a, res) ==
-    IF a.k = "Confirm" /\ res.out = "ok" /\ a.chain \in DOMAIN gc
+GcOne(gc, pre, a) ==
+    IF a.k = "Confirm" /\ a.chain \in DOMAIN gc
     THEN LET v == SignerVal(pre, a.chain, a.by)
          IN [gc EXCEPT ![a.chain] = Put(@, a.tx, Put(Get(@, a.tx, <<>>), v, a.ext))]
     ELSE gc
+GcNext(gc, pre, a, res) ==
+    IF res.out # "ok" THEN gc
+    ELSE IF a.k = "Tx" THEN FoldLeft(LAMBDA acc, m : GcOne(acc, pre, m), gc, a.msgs)
+    ELSE GcOne(gc, pre, a)
 IsAscending(seq) == \A i \in 1..(Len(seq) - 1) : seq[i] < seq[i + 1]
 C16Queries(gc, post) ==
     UNION {
@@ -174,7 +180,10 @@ EvmChecks(g, pre, a, res, post) ==
                    IF sets = {} THEN Fail(res.out = "ok", "C08:AcceptIffQuorum", "unknown-set")
                    ELSE LET ss == CHOOSE x \in sets : TRUE
                             want == UpdateAccepts(k, ss.n, k.set, RelayerMarks(pre, c, [t |-> "ss", n |-> ss.n], a))
+                            marks == RelayerMarks(pre, c, [t |-> "ss", n |-> ss.n], a)
                         IN   Fail((res.out = "ok") # want, "C08:AcceptIffQuorum", IF want THEN "valset-rejected" ELSE "valset-accepted")
+                             \* whatever the powers: an update every member of the contract's current set signed must pass
+                        \cup Fail(res.out # "ok" /\ ss.n > k.set.n /\ Len(k.set.m) > 0 /\ (\A i \in DOMAIN marks : marks[i] = "ok"), "C08:FullSetRejected", "valset")
                         \cup Fail(res.out = "ok" /\ ~(k2.set = [n |-> ss.n, m |-> ss.m] /\ k2.vsn = ss.n /\ k2.evn = k.evn + 1), "C08:ContractState", "valset")
                         \cup Fail(res.out # "ok" /\ <<k2.set, k2.vsn, k2.evn, k2.lbn>> # <<k.set, k.vsn, k.evn, k.lbn>>, "C08:RevertChangedState", "valset")
               [] a.k = "EvmSubmitBatch" ->
@@ -185,7 +194,10 @@ EvmChecks(g, pre, a, res, post) ==
                    ELSE LET b == CHOOSE b \in bs : TRUE
                             want == BatchAccepts(k, k.set, RelayerMarks(pre, c, [t |-> "bat", tok |-> b.tok, n |-> b.n], a), b)
                             paid == SumOver(b.txs, LAMBDA tr : tr.a)
+                            bmarks == RelayerMarks(pre, c, [t |-> "bat", tok |-> b.tok, n |-> b.n], a)
                         IN   Fail((res.out = "ok") # want, "C08:AcceptIffQuorum", IF want THEN "batch-rejected" ELSE "batch-accepted")
+                        \cup Fail(res.out # "ok" /\ Get(k.lbn, b.tok, 0) < b.n /\ k.blk + 1 < b.to /\ Len(k.set.m) > 0 /\ (\A i \in DOMAIN bmarks : bmarks[i] = "ok"),
+                                  "C08:FullSetRejected", "batch")
                         \cup Fail(res.out = "ok" /\ ~(Get(k2.lbn, b.tok, 0) = b.n /\ k2.evn = k.evn + 1 /\ Get(k2.cust, b.tok, 0) = Get(k.cust, b.tok, 0) - paid), "C08:ContractState", "batch")
                         \cup Fail(res.out # "ok" /\ <<k2.set, k2.vsn, k2.evn, k2.lbn, k2.cust>> # <<k.set, k.vsn, k.evn, k.lbn, k.cust>>, "C08:RevertChangedState", "batch")
               [] a.k = "EvmDeposit" ->
@@ -203,15 +215,92 @@ EvmInStep(post) ==
           \cup Fail(post.evm[c].cp # post.evm[c].cph, "C07:CheckpointAgrees", c)
           : c \in DOMAIN post.evm}
 
+\* ---------------------------------------------------------------- the Minter loop (family "minter")
+\* post.mnt is the Minter chain model (multisig, custody, reference event numbering), post.cn the cursors of the
+\* connectors.  Lines "ConnScan" / "ConnBatches" / "ConnValsets" / "ConnRestart" report what one call of the REAL
+\* connector function did: res.cur0 / res.cur1 the cursor before and after (with the persisted one in .disk),
+\* res.outs the messages it committed to the hub (already consumed as ordinary steps), res.subs what it submitted
+\* to the multisig, res.ack the nonce the hub acknowledged.  `call` is the state at the moment of the call.
+QConfAddrs(s, tx) == {p[1] : p \in RangeOf(ConfsOf(s, MC, tx))}
+ConnAct(a) == a.k \in {"ConnScan", "ConnBatches", "ConnValsets", "ConnRestart", "ConnCrashScan"}
+ClaimEvs(outs) == [i \in DOMAIN outs |-> outs[i].ev]
+SubChecks(mx, sub, seqno, body, want, signersWant, who) ==
+         Fail(~(sub.decoded /\ sub.sender_ok /\ sub.nonce = seqno /\ body), "C08:MinterTxMatches", who)
+    \cup Fail(RangeOf(sub.signers) # signersWant \/ Len(sub.signers) # Cardinality(signersWant), "C08:MinterSignaturesValid", who)
+    \cup Fail(sub.accepted # want, "C08:AcceptIffQuorum", IF want THEN who \o "-rejected" ELSE who \o "-accepted")
+MinterChecks(call, pre, a, res) ==
+    IF pre.mnt = <<>> \/ ~ConnAct(a) THEN {}
+    ELSE IF res.out # "ok" THEN {<<"C20:ConnectorFails", res.out>>}
+    ELSE
+    LET mx   == pre.mnt          \* the chain when the pass submitted / finished (a pass submits last)
+        mx0  == call.mnt
+        cur0 == CursorOf(res.cur0)
+        cur1 == CursorOf(res.cur1)
+        dsk0 == CursorOf(res.cur0.disk)
+        dsk1 == CursorOf(res.cur1.disk)
+        v    == a.by
+        conf(tx) == QConfAddrs(pre, tx)
+    IN CASE a.k = "ConnScan" ->
+              IF ~CursorConsistent(mx0, cur0) THEN {}      \* reported where the cursor went wrong
+              ELSE   Fail(ClaimEvs(res.outs) # ScanClaims(mx0, cur0), "C20:SameNonce", v)
+                \cup Fail(cur1 # CursorAt(mx0, ScanTo(mx0, cur0)) \/ dsk1 # cur1, "C20:CursorConsistent", v)
+         [] a.k = "ConnCrashScan" ->      \* a pass whose cursor is lost (crash between the hub's commit and the status file)
+              IF ~CursorConsistent(mx0, cur0) \/ ~CursorConsistent(mx0, dsk0) THEN {}
+              ELSE   Fail(ClaimEvs(res.outs) # ScanClaims(mx0, cur0), "C20:SameNonce", v)
+                \cup Fail(dsk1 # dsk0, "infra:CrashKeptCursor", v)
+         [] a.k = "ConnRestart" ->
+              IF ~CursorConsistent(mx0, dsk0) THEN {}
+              ELSE   Fail(~CursorConsistent(mx0, dsk1) \/ dsk1 # cur1, "C20:CursorConsistent", v)
+                \cup Fail(cur1 # CursorAt(mx0, ResyncTo(mx0, dsk0, res.ack)), "conf:resync", v)
+         [] a.k = "ConnBatches" ->
+              LET want == BatchToRelay(pre, cur0, conf)
+                  u    == pre.ch[MC].q.unsigned
+              IN   Fail(Has(u, v) /\ u[v].ok /\ u[v].bat # <<>>, "C08:ConnectorConfirmsAll", v)
+              \cup Fail(want = <<>> /\ res.subs # <<>>, "conf:relay", "unexpected-batch-submission")
+              \cup Fail(want # <<>> /\ Len(res.subs) # 1, "conf:relay", "no-batch-submission")
+              \cup (IF want = <<>> \/ Len(res.subs) # 1 THEN {}
+                    ELSE LET b == want[1]
+                             sub == res.subs[1]
+                             signers == conf([t |-> "bat", tok |-> b.tok, n |-> b.n]) \cap MsigMembers(mx)
+                         IN SubChecks(mx, sub, b.seq, sub.type = "multisend" /\ sub.items = BatchItems(b),
+                                      MsigAccepts(mx, b.seq, signers) /\ Get(mx.cust, b.tok, 0) >= SumOver(b.txs, LAMBDA tr : tr.a), signers, "batch"))
+         [] a.k = "ConnValsets" ->
+              LET want == SetToRelay(pre, cur0, conf)
+                  u    == pre.ch[MC].q.unsigned
+              IN   Fail(Has(u, v) /\ u[v].ok /\ u[v].ss # <<>>, "C08:ConnectorConfirmsAll", v)
+              \cup Fail(want = <<>> /\ res.subs # <<>>, "conf:relay", "unexpected-valset-submission")
+              \cup Fail(want # <<>> /\ Len(res.subs) # 1, "conf:relay", "no-valset-submission")
+              \cup (IF want = <<>> \/ Len(res.subs) # 1 THEN {}
+                    ELSE LET x == want[1]
+                             sub == res.subs[1]
+                             ed == ValsetEdit(x)
+                             signers == conf([t |-> "ss", n |-> x.n]) \cap MsigMembers(mx)
+                         IN SubChecks(mx, sub, x.seq, sub.type = "editmsig" /\ sub.m = ed.m /\ sub.thr = ed.thr /\ sub.payload = ed.payload,
+                                      MsigAccepts(mx, x.seq, signers), signers, "valset"))
+         [] OTHER -> {}
+
+\* the hub never runs ahead of the Minter chain; what it applied is the reference event of that nonce; once every
+\* event is applied its view of the signer set is the multisig's and no executed batch is still pending
+MinterInStep(post) ==
+    IF post.mnt = <<>> THEN {}
+    ELSE LET h == post.ch[MC]
+             mx == post.mnt
+             sets == SelectSeq(mx.ref, LAMBDA e : e.t = "SSExec")
+         IN   Fail(h.lon > Len(mx.ref), "C08:InStep", "event-nonce-ahead")
+         \cup Fail(\E r \in h.votes : r.acc /\ (r.n > Len(mx.ref) \/ r.ev # mx.ref[r.n]), "C08:InStep", "applied-event-differs")
+         \cup Fail(h.lon = Len(mx.ref) /\ sets # <<>> /\ h.loss # [n |-> sets[Len(sets)].ssn, m |-> sets[Len(sets)].m], "C08:InStep", "valset-differs")
+         \cup Fail(\E e \in ExecutedRefs(mx, h.lon) : \E b \in h.bat : b.tok = e.tok /\ b.n = e.bn, "C08:InStep", "executed-batch-pending")
+         \cup Fail(\E v \in DOMAIN post.cn : ~CursorConsistent(mx, CursorOf(post.cn[v].disk)), "C20:PersistedCursor", "inconsistent")
+
 PropChecks(g, xw, fam, pre, a, res, post) ==
        FailedIsNoop(pre, a, res, post)
   \cup (IF Modelled(a) THEN StepChecks(g, pre, a, res, post) \cup C01Step(pre, a, post) ELSE C05Checks(a, res))
   \cup (IF WithWorld(fam) /\ ~Solvent(post, xw) THEN {<<"C01:Solvency", "">>} ELSE {})
-  \cup EvmChecks(g, pre, a, res, post) \cup EvmInStep(post)
+  \cup EvmChecks(g, pre, a, res, post) \cup EvmInStep(post) \cup MinterInStep(post)
   \cup (IF WithWorld(fam) /\ ~ExecConsistent(xw, pre, a) THEN {<<"infra:ExecInconsistent", "">>} ELSE {})
 
 \* ---------------------------------------------------------------- the trace automaton
-InitHist == [cfg |-> <<>>, pre |-> <<>>, g |-> <<>>, gc |-> <<>>, xw |-> <<>>, fam |-> "", n |-> 0, id |-> "", viol |-> {}, cov |-> <<>>]
+InitHist == [cfg |-> <<>>, pre |-> <<>>, call |-> <<>>, g |-> <<>>, gc |-> <<>>, xw |-> <<>>, fam |-> "", n |-> 0, id |-> "", viol |-> {}, cov |-> <<>>]
 
 \* coverage counters: how often each kind of step / outcome was seen (anti-vacuity evidence)
 Bump(cov, key) == Put(cov, key, Get(cov, key, 0) + 1)
@@ -247,16 +336,30 @@ ConsumeStep ==
                                                              THEN @ \cup {<<line.act.tok, line.act.n>>} ELSE @]
                                 ELSE xw0[c]]
                         ELSE xw0
-                xw2  == IF WithWorld(hist.fam) THEN XwObserve(xw1, post) ELSE xw1
+                \* minter family: custody and executed batches are what the Minter chain model reports
+                xw1m == IF hist.fam = "minter" /\ post.mnt # <<>>
+                        THEN [xw1 EXCEPT ![MC].cust = [t \in DOMAIN @ |-> Get(post.mnt.cust, t, 0)],
+                                         ![MC].done = {<<e.tok, e.bn>> : e \in {e \in RangeOf(post.mnt.ref) : e.t = "Exec"}}]
+                        ELSE xw1
+                xw2  == IF WithWorld(hist.fam) THEN XwObserve(xw1m, post) ELSE xw1m
             IN /\ fails' = ConfChecks(hist.pre, line.act, line.res, post) \cup PropChecks(hist.g, xw2, hist.fam, hist.pre, line.act, line.res, post)
-                            \cup C16Queries(gc2, post)
+                            \cup C16Queries(gc2, post) \cup MinterChecks(hist.call, hist.pre, line.act, line.res)
                /\ hist' = [hist EXCEPT !.pre = post, !.xw = xw2, !.gc = gc2,
+                                       !.call = IF line.act.k = "ConnCall" THEN post ELSE @,
                                        !.g = IF Modelled(line.act) THEN GhostNext(hist.g, hist.pre, line.act, line.res, post) ELSE hist.g,
                                        !.viol = @ \cup {<<hist.id, line.i, f[1], f[2]>> : f \in fails'},
                                        !.cov = Bump(@, CovKey(line.act, line.res))]
     /\ l' = l + 1
 
-Next == ConsumeReset \/ ConsumeStep
+\* the real contract's constructor refused the hub's current signer set (the behaviour could not even start)
+ConsumeDeployFail ==
+    /\ l < Len(Trace) /\ Trace[l + 1].k = "deployfail"
+    /\ fails' = {<<"C08:InitialSetRejected", "constructor">>}
+    /\ hist' = [hist EXCEPT !.viol = @ \cup {<<Trace[l + 1].id, 0, "C08:InitialSetRejected", "constructor">>}, !.n = hist.n + 1, !.id = Trace[l + 1].id,
+                            !.cov = Bump(@, "deployfail")]
+    /\ l' = l + 1
+
+Next == ConsumeReset \/ ConsumeStep \/ ConsumeDeployFail
 
 Spec == Init /\ [][Next]_vars
 
